@@ -13,5 +13,5 @@ Proof. exact tie_extent_size. Qed.
 Print Assumptions C08_tie_extent_size.
 
 Example C08_tie_example :
-  util_calculateExtentSize 10 4 16 = 3 /\ util_calculateExtentSize 5 0 16 = 1 /\ util_calculateExtentSize 7 (-3) 2 = 4.
+  util_calculateExtentSize 10 4 16 = 2 /\ util_calculateExtentSize 5 0 16 = 1 /\ util_calculateExtentSize 7 (-3) 2 = 4.
 Proof. vm_compute. repeat split. Qed.
